@@ -51,6 +51,14 @@ func vhDefPushPop() Rules {
 	}
 }
 
+// elided (lower-case) rules that carry actions
+func vhDefElidedActions() Rules {
+	return Rules{
+		"Root": {{"open", `<`, Push("In")}, {"A", `a`, nil}, {"ws", ` `, nil}},
+		"In":   {{"close", `>`, Pop()}, {"B", `b`, nil}, {"open", `<`, Push("In")}},
+	}
+}
+
 func vhDefString() Rules { // README-style interpolated string
 	return Rules{
 		"Root":   {{"String", `"`, Push("String")}, {"Ident", `[a-z]+`, nil}},
